@@ -208,6 +208,13 @@ func (p *parser) parseType() Type {
 	if p.isOp(".") {
 		p.unsupported("schema-qualified type name %s.", name)
 	}
+	if p.isOp("%") {
+		// tbl%ROWTYPE: the row type of the table, which is what the bare table name denotes as a type
+		p.next()
+		if kw := strings.ToLower(p.ident()); kw != "rowtype" {
+			p.unsupported("%%%s type reference", kw)
+		}
+	}
 	t := Type{Name: name}
 	if alias, ok := typeAliases[name]; ok {
 		t.Name = alias
